@@ -120,6 +120,9 @@ class HistProp:
         w.stats["packs"] = PACKS["n"] - ctx.get("_packs0", 0)
         for kk, v in w.known_hits.items():
             counts["known:" + kk] += v
+        for kk, v in rig.counts.items():
+            if kk.startswith("startup_"):
+                counts[kk] += v
         counts["wire_errors"] += len(rig.wire_errors)
         counts["watchdog_hits"] += len(rig.watchdog_hits)
         import os as _os
